@@ -81,6 +81,137 @@ def classify(leaves, selfname, oname):
     return sorted(lits)
 
 
+_NEG = {ast.Eq: ast.NotEq, ast.NotEq: ast.Eq, ast.In: ast.NotIn, ast.NotIn: ast.In, ast.Is: ast.IsNot, ast.IsNot: ast.Is}
+
+
+def _not(e):
+    """negation of a condition in the canonical spelling (a != b -> a == b, not not x -> x, De Morgan over and/or)"""
+    if isinstance(e, ast.UnaryOp) and isinstance(e.op, ast.Not):
+        return e.operand
+    if isinstance(e, ast.Compare) and len(e.ops) == 1 and type(e.ops[0]) in _NEG:
+        return ast.Compare(left=e.left, ops=[_NEG[type(e.ops[0])]()], comparators=list(e.comparators))
+    if isinstance(e, ast.BoolOp):
+        return ast.BoolOp(op=ast.And() if isinstance(e.op, ast.Or) else ast.Or(), values=[_not(v) for v in e.values])
+    if isinstance(e, ast.Constant) and isinstance(e.value, bool):
+        return ast.Constant(value=not e.value)
+    return ast.UnaryOp(op=ast.Not(), operand=e)
+
+
+def _bool(op, vals):
+    out = []
+    for v in vals:
+        if isinstance(v, ast.BoolOp) and isinstance(v.op, op):
+            out.extend(v.values)
+        else:
+            out.append(v)
+    return out[0] if len(out) == 1 else ast.BoolOp(op=op(), values=out)
+
+
+class _SubstNames(ast.NodeTransformer):
+    def __init__(self, m):
+        self.m = m
+
+    def visit_Name(self, n):
+        if isinstance(n.ctx, ast.Load) and n.id in self.m:
+            import copy
+            return copy.deepcopy(self.m[n.id])
+        return n
+
+
+_NOVALUE = "no-value"      # the path raises / returns NotImplemented: it yields no verdict on two instances
+
+
+def returned_bool(fn: ast.FunctionDef, resolve=None, _depth: int = 0):
+    """The boolean a predicate method returns, as ONE expression, whatever its statement structure: guard clauses
+    (`if c: return False` ... `return x` is `not c and x`), if/else arms, locals bound once to a pure expression (substituted),
+    paths that raise or return NotImplemented dropped (they give no verdict), and -- with `resolve(name) -> FunctionDef` -- calls
+    `self.helper(o)` of predicate helpers of the same class replaced by what the helper returns.  None when a statement is not
+    understood."""
+    import copy
+    params = [a.arg for a in fn.args.args]
+    stores = {}
+    for n in ast.walk(fn):
+        if isinstance(n, ast.Name) and isinstance(n.ctx, ast.Store):
+            stores[n.id] = stores.get(n.id, 0) + 1
+
+    def fold(stmts, env):
+        if not stmts:
+            return None                     # falls off the end: returns None, not a boolean
+        st, rest = stmts[0], stmts[1:]
+        if isinstance(st, ast.Expr) and isinstance(st.value, ast.Constant):
+            return fold(rest, env)
+        if isinstance(st, ast.Pass):
+            return fold(rest, env)
+        if isinstance(st, ast.Raise):
+            return _NOVALUE
+        if isinstance(st, ast.Return):
+            if st.value is None:
+                return None
+            if isinstance(st.value, ast.Name) and st.value.id == "NotImplemented":
+                return _NOVALUE
+            return _SubstNames(env).visit(copy.deepcopy(st.value))
+        if isinstance(st, ast.Assign) and len(st.targets) == 1:
+            t, v = st.targets[0], st.value
+            pairs = None
+            if isinstance(t, ast.Name):
+                pairs = [(t, v)]
+            elif isinstance(t, (ast.Tuple, ast.List)) and isinstance(v, (ast.Tuple, ast.List)) and len(t.elts) == len(v.elts) \
+                    and all(isinstance(e, ast.Name) for e in t.elts):
+                pairs = list(zip(t.elts, v.elts))
+            if pairs is None or any(stores.get(a.id, 0) != 1 or a.id in params for a, _ in pairs):
+                return None
+            new = dict(env)
+            for a, b in pairs:
+                new[a.id] = _SubstNames(env).visit(copy.deepcopy(b))
+            return fold(rest, new)
+        if isinstance(st, ast.If):
+            t = _SubstNames(env).visit(copy.deepcopy(st.test))
+            a = fold(list(st.body) + ([] if _ends(st.body) else list(rest)), env)
+            b = fold(list(st.orelse) + ([] if _ends(st.orelse) else list(rest)), env)
+            if a is None or b is None:
+                return None
+            if a is _NOVALUE:
+                return b
+            if b is _NOVALUE:
+                return a
+            if isinstance(a, ast.Constant) and a.value is False:
+                return _bool(ast.And, [_not(t), b])
+            if isinstance(a, ast.Constant) and a.value is True:
+                return _bool(ast.Or, [t, b])
+            if isinstance(b, ast.Constant) and b.value is False:
+                return _bool(ast.And, [t, a])
+            if isinstance(b, ast.Constant) and b.value is True:
+                return _bool(ast.Or, [_not(t), a])
+            return _bool(ast.Or, [_bool(ast.And, [t, a]), _bool(ast.And, [_not(t), b])])
+        return None
+
+    def _ends(stmts):
+        return bool(stmts) and isinstance(stmts[-1], (ast.Return, ast.Raise))
+
+    e = fold(list(fn.body), {})
+    if e is None or e is _NOVALUE:
+        return None
+    if resolve is not None and _depth < 3:
+        recv = params[0] if params else "self"
+
+        class Inl(ast.NodeTransformer):
+            def visit_Call(self, n):
+                self.generic_visit(n)
+                if isinstance(n.func, ast.Attribute) and isinstance(n.func.value, ast.Name) and n.func.value.id == recv and not n.keywords \
+                        and not any(isinstance(a, ast.Starred) for a in n.args):
+                    callee = resolve(n.func.attr)
+                    if callee is not None and callee is not fn and not callee.decorator_list and len(callee.args.args) == len(n.args) + 1 \
+                            and all(isinstance(a, ast.Name) for a in n.args):
+                        sub = returned_bool(callee, resolve, _depth + 1)
+                        if sub is not None:
+                            m = {callee.args.args[0].arg: ast.Name(id=recv, ctx=ast.Load())}
+                            m.update({p.arg: a for p, a in zip(callee.args.args[1:], n.args)})
+                            return _SubstNames(m).visit(copy.deepcopy(sub))
+                return n
+        e = Inl().visit(e)
+    return ast.fix_missing_locations(e)
+
+
 def eq_disjuncts(fn: ast.FunctionDef):
     """DNF of the value `__eq__` returns for two instances. -> (list of literal lists, problems)"""
     args = [a.arg for a in fn.args.args]
@@ -89,6 +220,11 @@ def eq_disjuncts(fn: ast.FunctionDef):
     cands = [r for r in rets if not (isinstance(r.value, ast.Name) and r.value.id == "NotImplemented")
              and not (isinstance(r.value, ast.Constant))]
     problems = []
+    if len(cands) != 1:
+        # several boolean returns (guard clauses, if/else arms): the one expression they amount to
+        folded = returned_bool(fn)
+        if folded is not None:
+            return [classify(c, selfname, oname) for c in dnf(folded)], problems
     if len(cands) != 1:
         problems.append(f"expected one boolean return in {fn.name}, found {len(cands)}")
         if not cands:
@@ -103,6 +239,24 @@ def attrs_read(node, selfname="self"):
     for n in ast.walk(node):
         if isinstance(n, ast.Attribute) and isinstance(n.value, ast.Name) and n.value.id == selfname:
             out.add(n.attr)
+    return out
+
+
+def attrs_read_deep(fn, resolve, selfname=None, _seen=None):
+    """self.<attr> reads of a method, following `self.helper(..)` calls into the methods `resolve(name) -> FunctionDef | None`
+    finds in the same class: the names of those helpers are not attributes, what they read is."""
+    selfname = selfname or (fn.args.args[0].arg if fn.args.args else "self")
+    _seen = _seen if _seen is not None else set()
+    called = {n.func.attr for n in ast.walk(fn) if isinstance(n, ast.Call) and isinstance(n.func, ast.Attribute)
+              and isinstance(n.func.value, ast.Name) and n.func.value.id == selfname}
+    out = set()
+    for a in attrs_read(fn, selfname):
+        callee = resolve(a) if a in called else None
+        if callee is None:
+            out.add(a)
+        elif id(callee) not in _seen and callee is not fn:
+            _seen.add(id(callee))
+            out |= attrs_read_deep(callee, resolve, None, _seen)
     return out
 
 
